@@ -5,7 +5,7 @@ use serde_json::{json, Value};
 use vmodel::{
     engine::{Failure, ShardCtx, Verdict},
     refs::{is_help_request, quote_token, ref_classify, Key, RArg},
-    session::{Config, EnumSet, RawSet, Sess},
+    session::{Config, EnumSet, RawSet, Sess, Shorts, ShortsSet},
 };
 
 use super::{common::real_decode, Check, DEFAULT};
@@ -20,6 +20,7 @@ pub fn check() -> Check {
         rule: "Exhaustive over all 1,112,031 scalar values >= U+0020 except U+007F. (a) for each scalar, alone and between neighbours of every encoded length ({none, a, e-acute, bitcoin sign, G-clef} on each side, 25 contexts): \
                encode_utf8, char_pop_front, char_count, char_byte_index at every index, common_prefix_len against a sibling and the input decoder are compared with std's UTF-8 functions. \
                (b) through a whole Cli: typed between neighbours, moved over with Left/Right, deleted with Backspace, retyped, submitted inside a command name, as an argument and in a short-option cluster, recalled with Up, edited (Backspace, retype, Left, Right) and resubmitted, recalled again next to its own proper prefix, redrawn through set_prompt and left alone by Tab while the cursor stands left of it (terminal emulator), and rendered in `unexpected option: -X` by a derived command; echo bytes equal typed bytes. \
+               (c) a derived command whose short names are 2-, 3- and 4-octet characters in every spelling the macros take (generated from a field identifier, char literal, string literal): alone, clustered, next to each other, and the look-alike whose code is the first octet must be refused. \
                Quick runs (b) for every scalar in five of the 25 neighbour contexts (one left neighbour, rotating with the scalar and the seed, with every right neighbour) and in all 25 for encoded-length boundaries and the special characters; thorough runs all 25 contexts for every scalar. \
                Every scalar is non-trivial; distinct by scalar value (counted once per scalar that passed).",
         assumptions: &[
@@ -323,7 +324,113 @@ fn full(c: char, with_cli: bool, all_ctx: bool, rot: usize) -> Result<(), (Strin
     Ok(())
 }
 
+/// (c) short names outside ASCII as the derive macros take them: generated from a field identifier, char literal, string
+/// literal; 2-, 3- and 4-octet characters. Expected values are built directly from the declared type.
+fn declared_shorts_cases() -> Vec<(String, Result<String, String>)> {
+    let base = || (false, None::<u8>, false, false, None::<u8>, false, None::<u8>, false);
+    let show = |t: (bool, Option<u8>, bool, bool, Option<u8>, bool, Option<u8>, bool)| {
+        format!(
+            "{:?}",
+            Shorts::Sh {
+                юникод: t.0,
+                値_level: t.1,
+                𠀀z: t.2,
+                a: t.3,
+                b: t.4,
+                c: t.5,
+                d: t.6,
+                e: t.7
+            }
+        )
+    };
+    let mut out: Vec<(String, Result<String, String>)> = Vec::new();
+    let flags: [(char, usize); 5] = [('ю', 0), ('𠀀', 2), ('ж', 3), ('佐', 5), ('𑿌', 7)];
+    let opts: [(char, usize); 3] = [('値', 1), ('é', 4), ('𐐷', 6)];
+    let set_flag = |t: &mut (bool, Option<u8>, bool, bool, Option<u8>, bool, Option<u8>, bool), i: usize| match i {
+        0 => t.0 = true,
+        2 => t.2 = true,
+        3 => t.3 = true,
+        5 => t.5 = true,
+        _ => t.7 = true,
+    };
+    let set_opt = |t: &mut (bool, Option<u8>, bool, bool, Option<u8>, bool, Option<u8>, bool), i: usize, v: u8| match i {
+        1 => t.1 = Some(v),
+        4 => t.4 = Some(v),
+        _ => t.6 = Some(v),
+    };
+    out.push(("sh".into(), Ok(show(base()))));
+    for (c, i) in flags {
+        let mut t = base();
+        set_flag(&mut t, i);
+        out.push((format!("sh -{}", c), Ok(show(t))));
+        // the character whose code is the first octet of the declared one is a different, undeclared option
+        let look = char::from(c.to_string().as_bytes()[0]);
+        out.push((format!("sh -{}", look), Err(format!("unexpected option: -{}", look))));
+        for (c2, i2) in flags {
+            if i2 != i {
+                let mut t2 = t;
+                set_flag(&mut t2, i2);
+                out.push((format!("sh -{}{}", c, c2), Ok(show(t2))));
+                out.push((format!("sh -{} -{}", c2, c), Ok(show(t2))));
+            }
+        }
+        for (o, io) in opts {
+            let mut t2 = t;
+            set_opt(&mut t2, io, 7);
+            out.push((format!("sh -{}{} 7", c, o), Ok(show(t2))));
+            out.push((format!("sh -{} 7 -{}", o, c), Ok(show(t2))));
+        }
+    }
+    for (o, io) in opts {
+        let mut t = base();
+        set_opt(&mut t, io, 42);
+        out.push((format!("sh -{} 42", o), Ok(show(t))));
+        let look = char::from(o.to_string().as_bytes()[0]);
+        out.push((format!("sh -{} 42", look), Err(format!("unexpected option: -{}", look))));
+    }
+    let mut all = base();
+    for (_, i) in flags {
+        set_flag(&mut all, i);
+    }
+    out.push(("sh -ю𠀀ж佐𑿌".into(), Ok(show(all))));
+    out
+}
+
+fn check_declared_short(line: &str, want: &Result<String, String>) -> Result<(), (String, String)> {
+    let v = vmodel::genrun::observe_line::<ShortsSet>(line);
+    let calls = v["calls"].as_array().cloned().unwrap_or_default();
+    let what = format!("derived command with short names outside ASCII, line {:?}", line);
+    if v["error"].is_string() || calls.len() != 1 {
+        return Err((format!("{}: one dispatch", what), v.to_string()));
+    }
+    match want {
+        Ok(d) => {
+            if calls[0]["typed"]["ok"].as_str() != Some(d.as_str()) {
+                return Err((format!("{}: parsed as {}", what, d), calls[0]["typed"].to_string()));
+            }
+        }
+        Err(e) => {
+            let out = v["out"].as_str().unwrap_or("");
+            if calls[0]["typed"]["err"].is_null() || !out.contains(e.as_str()) {
+                return Err((format!("{}: rejected with `error: {}`", what, e), format!("{} / output {:?}", calls[0]["typed"], out)));
+            }
+        }
+    }
+    Ok(())
+}
+
 fn run_shard(ctx: &ShardCtx) {
+    if ctx.shard == 0 {
+        let cases = declared_shorts_cases();
+        let n = cases.len() as u64;
+        for (k, (line, want)) in cases.iter().enumerate() {
+            if let Err((e, o)) = check_declared_short(line, want) {
+                ctx.fail(Failure::new("declared-short", json!({"index": k, "line": line}), e, o));
+                return;
+            }
+        }
+        ctx.class_n("lines against a derived command whose short names are 2-4 octet characters (generated, char and string spelling)", n);
+    }
     let all_ctx = ctx.tier.pick(false, true);
     let rot = (ctx.seed % 25) as usize;
     let mut idx = 0u64;
@@ -363,7 +470,13 @@ fn run_shard(ctx: &ShardCtx) {
     }
 }
 
-fn replay(_sub: &str, case: &Value) -> Verdict {
+fn replay(sub: &str, case: &Value) -> Verdict {
+    if sub == "declared-short" {
+        let k = case["index"].as_u64().unwrap_or(0) as usize;
+        let cases = declared_shorts_cases();
+        let (line, want) = &cases[k.min(cases.len() - 1)];
+        return check_declared_short(line, want).map_err(|(e, o)| Failure::new("declared-short", case.clone(), e, o));
+    }
     let v = case["scalar"].as_u64().unwrap_or(0x20) as u32;
     let c = char::from_u32(v).unwrap_or(' ');
     full(
